@@ -10,6 +10,7 @@ import TdModel.Prim.Common
 import TdModel.Prim.SHA256
 import TdModel.Prim.SHA1
 import TdModel.Prim.AES
+import TdModel.Prim.SHA512
 import TdModel.Prim.HMAC
 
 namespace TdModel
